@@ -263,6 +263,12 @@ package httpapi
 // A request is handed to a proxy (non-nil proxy URL, nil error) only under opt-in or after its target host has been
 // resolved with no internal address.  llmProxyFromEnvironment is a function variable (arbitrary callee: it may write
 // anything, so there is no assigns clause here); req.URL is read after it returns.
+// The proxy selector is a package-level function variable (http.ProxyFromEnvironment by default). TRUSTED assumption
+// about whatever function is installed there: it only reads the request and the environment (it resolves nothing).
+//@ ext daisen2/internal/httpapi.llmProxyFromEnvironment(req)
+//@   trusted
+//@   assigns nothing
+
 //@ fn proxyForLLMRequest
 //@   property C38
 //@   panics any
